@@ -418,6 +418,71 @@ def drv_flag_histories(c, ctx, col):
     col.sample({"history": hist})
 
 
+# several parser objects derived from one another ---------------------------------------------------------------
+
+COPY_SUBSETS = [(), ALL_FLAGS, FLAG_SETS[0], ("MULTISTAGE",)]
+
+
+def drv_flag_copies(c, ctx, col):
+    """Parser objects are derived from one another -- copy.copy, copy.deepcopy, pickle round-trip,
+    dataclasses.replace(p, feature_flags=F) -- and any of them is re-configured with set_feature_flags.  After every
+    event EVERY object obtained so far must behave like a fresh parser constructed with that object's own flags."""
+    import copy
+    import dataclasses
+    import pickle
+
+    from formulaic.parser import DefaultFormulaParser
+
+    subsets = ctx["subsets"]
+    f0 = c.pick(ctx["init_flags"])
+    objs = [DefaultFormulaParser(feature_flags=flag_spec(f0, "enum"))]
+    own = [tuple(f0)]
+    hist = ["p0 = DefaultFormulaParser(feature_flags=%r)" % (flag_spec(f0, "enum"),)]
+    if c.flag():
+        for s in PROBES:
+            run_on(objs[0], s)
+        hist.append("p0 parses %r" % (PROBES,))
+    n = 1 + c.upto(ctx["depth"] - 1)
+    for _ in range(n):
+        k = c.choose(len(objs))
+        ev = c.pick(["set", "copy", "deepcopy", "pickle", "replace"])
+        new = "p%d" % len(objs)
+        if ev == "set":
+            f = c.pick(subsets)
+            objs[k].set_feature_flags(flag_spec(f, "enum"))
+            own[k] = tuple(f)
+            hist.append("p%d.set_feature_flags(%r)" % (k, flag_spec(f, "enum")))
+        elif ev == "replace":
+            f, form = c.pick(subsets), c.pick(["enum", "set"])
+            objs.append(dataclasses.replace(objs[k], feature_flags=flag_spec(f, form)))
+            own.append(tuple(f))
+            hist.append("%s = dataclasses.replace(p%d, feature_flags=%r)" % (new, k, flag_spec(f, form)))
+        else:
+            objs.append(copy.copy(objs[k]) if ev == "copy" else copy.deepcopy(objs[k]) if ev == "deepcopy"
+                        else pickle.loads(pickle.dumps(objs[k])))
+            own.append(own[k])
+            hist.append("%s = %s" % (new, {"copy": "copy.copy(p%d)", "deepcopy": "copy.deepcopy(p%d)",
+                                            "pickle": "pickle.loads(pickle.dumps(p%d))"}[ev] % k))
+        for i, p in enumerate(objs):
+            for s in PROBES:
+                got = run_on(p, s)
+                col.interesting()
+                need = needed_flags(LX.lex(s)) - set(own[i])
+                key = "flag-copies :: %s ; then p%d parses %r" % (" ; ".join(hist), i, s)
+                detail = {"history": list(hist), "object": "p%d" % i, "its_flags": list(own[i]), "formula": s, "outcome": got,
+                          "repro": " ; ".join(hist) + " ; p%d.get_terms(%r)" % (i, s)}
+                if got[0] in ("ESCAPE", "TIMEOUT"):
+                    col.violation(key, detail, sig=got[1] or "no-termination-within-5s")
+                elif got[0] == "OK" and need:
+                    col.violation(key, dict(detail, disabled_but_needed=sorted(need)),
+                                  sig="disabled-operator-accepted-after-configuring-a-related-parser:" + "+".join(sorted(need)))
+                elif run(s, True, own[i], None)[0] != got[0]:
+                    col.violation(key, detail, sig="parser-differs-from-fresh-parser-after-configuring-a-related-parser")
+                elif need:
+                    col.count("disabled-operator-rejected")
+    col.sample({"history": hist})
+
+
 # valid Python fragments with unusual callee / node shapes, in every operand position ---------------------------
 
 PY_SHAPES = [
@@ -466,7 +531,7 @@ def drv_alias_collisions(c, ctx, col):
 
 # long inputs (a different axis from the length-bounded enumerations) ---------------------------------------------
 
-LONG_COUNTS = [10, 100, 1000, 3000]
+LONG_COUNTS = [10, 30, 100, 300, 1000, 3000]
 LONG_WATCHDOG_S = 30.0
 #   name, python expression in n that builds the formula, largest n used
 LONG_CONSTRUCTS = [
@@ -480,6 +545,21 @@ LONG_CONSTRUCTS = [
     ("nested square brackets", "'[' * n + 'a' + ']' * n", 3000),
     ("unclosed parentheses", "'(' * n + 'a'", 3000),
     ("unopened parentheses", "'a' + ')' * n", 3000),
+    ("nested stages", "'[a~' * n + 'z' + ']' * n", 3000),
+    ("nested stages with sums", "'[a+b~c+' * n + 'z' + ']' * n", 1000),
+    ("two-sided formula with nested stages", "'y ~ x + ' + '[a~' * n + 'z' + ']' * n", 3000),
+    ("brackets around a stage", "'[' * n + 'a ~ b' + ']' * n", 3000),
+    ("stage inside nested parentheses", "'(' * n + '[a ~ b]' + ')' * n", 3000),
+    ("chain of **", "'a' + '**2' * n", 3000),
+    ("chain of ^ in parentheses", "'(' * n + 'a' + '^2)' * n", 3000),
+    ("one name joined by :", "':'.join(['a'] * n)", 3000),
+    ("one name nested with /", "'/'.join(['a'] * n)", 3000),
+    ("one name joined by %in%", "' %in% '.join(['a'] * n)", 3000),
+    ("one name joined by *", "'*'.join(['a'] * n)", 3000),
+    ("right-nested parentheses with +", "'(a+' * n + 'z' + ')' * n", 3000),
+    ("left-nested parentheses with +", "'(' * n + 'z' + '+a)' * n", 3000),
+    ("chain of ~", "'~'.join(['a'] * n)", 3000),
+    ("nested unary minus in parentheses", "'-(' * n + 'a' + ')' * n", 3000),
     ("nested calls", "'f(' * n + 'a' + ')' * n", 3000),
     ("nested subscripts", "'a' + '[0]' * n", 3000),
     ("call with a long sum", "'f(' + '+'.join(['a'] * n) + ')'", 3000),
@@ -588,6 +668,15 @@ def subchecks(tier, seed):
                             "parse_between_events": [False, True], "probe_formulas": PROBES}))
     from props.c15 import PY_EXPRS
     frags = PY_SHAPES + ["{%s}" % e for e, _ in PY_EXPRS] + [e for e, bare in PY_EXPRS if bare]
+    subs.append(Sub("flag-copies", drv_flag_copies,
+                    {"init_flags": [(), ALL_FLAGS, FLAG_SETS[0]] if quick else FLAG_SETS, "depth": 2 if quick else 3,
+                     "subsets": COPY_SUBSETS if quick else COPY_SUBSETS + [("TWOSIDED",), ("MULTIPART",)]}, shard_depth=4,
+                    bounds={"first_parser": "NONE, ALL, DEFAULT" if quick else "all 8 subsets", "used_before": [False, True],
+                            "events": "1..2" if quick else "1..3",
+                            "each_event": "on any object obtained so far: set_feature_flags(F) | copy.copy | copy.deepcopy | pickle "
+                                          "round-trip | dataclasses.replace(p, feature_flags=F as value or set)",
+                            "F": [list(f) for f in (COPY_SUBSETS if quick else COPY_SUBSETS + [("TWOSIDED",), ("MULTIPART",)])],
+                            "after_every_event": "every object x 4 probe formulas vs a fresh parser with that object's flags"}))
     subs.append(Sub("py-shapes", drv_py_shapes, {"fragments": frags}, shard_depth=1,
                     bounds={"fragments": "%d valid Python fragments (unusual callees: subscript, call result, lambda, boolean/conditional "
                                          "expression, container element; every expression node type; C15's pool in brace and call form)" % len(frags),
